@@ -291,6 +291,14 @@ CB.Gen.DivLimbLoops.Uint) and `mul_rem` (namespace CB.Gen.DivLimbLoops.MulRem, a
   callee at the limb count `k` of the literal, the argument the list `[w0, .., wk-1]` of those words
   (`rem_limb_with_reciprocal 2 [lo, hi] rec_`);
   a Rust local whose name is a Lean keyword (`let rec = ..`) gets a trailing underscore (`rec_`).
+Also in that file (namespace CB.Gen.DivLimbLoops.Vartime): the private helpers `impl Uint { shl_limb_vartime, shr_limb_vartime }` of
+src/uint/div.rs (the sub-limb shifts of `div_rem_vartime` over the low `limbs_num` limbs).  Subset extensions:
+  unit option `usize_param_nat`: a `usize` PARAMETER (`limbs_num: usize`) is a `Nat` (as limb counts and indices are), `limbs_num - 1`
+  the truncated `Nat` subtraction (Rust panics on underflow: `1 <= limbs_num` is a precondition of the bridge theorems);
+  a seventh `while` form:
+    - `let mut i = <Nat expression>; while i > 0 { ..; i -= 1; }` with the decrement as the LAST statement of the body becomes
+      `<fn>_loop<j> captured.. : Nat → state.. → state` by structural recursion on the counter: round `n + 1` runs the body with
+      `i = n + 1` and recurses with `n` (the fifth form of the seventh group, decrement FIRST, runs it with `i = n`).
 """
 import os, re, sys, json
 
@@ -3326,6 +3334,69 @@ def _gen_fresh4(self, v, env):
 
 Gen.fresh = _gen_fresh4
 
+# unit option `usize_param_nat`: a `usize` PARAMETER (`limbs_num: usize`) is a `Nat` (limb counts and indices are `Nat`s)
+_ty_of_r4 = ty_of
+
+
+def ty_of(t, self_ty):
+    if OPTS.get('usize_param_nat') and t.strip() == 'usize':
+        return 'nat'
+    return _ty_of_r4(t, self_ty)
+
+
+# a seventh `while` form: `while i > 0 { ..; i -= 1; }` with a `usize` counter and the decrement as the LAST statement of the
+# body: `<fn>_loop<j> captured.. : Nat → state.. → state` by structural recursion on the counter, round `n + 1` runs the body
+# with `i = n + 1` and recurses with `n` (the fifth form of the seventh group runs it with `i = n`)
+_emit_loop_down_r4, _loop_down_text_r4 = Gen.emit_loop_down, Gen.loop_down_text
+
+
+def _is_dec(st, i):
+    return st[0] == 'assign' and st[1] == i and st[2] == '-=' and st[3][0] == 'lit' and st[3][1] == 1
+
+
+def _emit_loop_down4(self, i, body, env, lines):
+    if len(body) >= 2 and _is_dec(body[-1], i) and not _is_dec(body[0], i):
+        self.down_last = True
+        try:
+            return _emit_loop_down_r4(self, i, [body[-1]] + body[:-1], env, lines)
+        finally:
+            self.down_last = False
+    return _emit_loop_down_r4(self, i, body, env, lines)
+
+
+def _loop_down_text4(self, i, rest, state, styp, captured, env):
+    if not getattr(self, 'down_last', False):
+        return _loop_down_text_r4(self, i, rest, state, styp, captured, env)
+    self.nloop += 1
+    aux = f'{self.fname}_loop{self.nloop}'
+    env2 = {}
+    for v in captured:
+        env2[v] = (self.fresh('self_' if v == 'self' else v, env2), env[v][1])
+    for s, ty in zip(state, styp):
+        env2[s] = (self.fresh(s, env2), ty)
+    nvar = self.fresh('n', env2)
+    env2[i] = (f'({nvar} + 1)', 'nat')           # the decrement is the last statement: in round `n + 1` the body sees `i = n + 1`
+    outer, declared = set(env2), set()
+    pat = ', '.join(env2[s][0] for s in state)
+    tup = f'({pat})' if len(state) > 1 else pat
+    capb = ''.join(f' ({env2[v][0]} : {lean_ty(env2[v][1])})' for v in captured)
+    capa = ''.join(f' {env2[v][0]}' for v in captured)
+    lines2 = []
+    self.run(rest, env2, lines2, declared)
+    if declared & outer:
+        raise Unsupported('loop body shadows an outer variable')
+    if any(env2[s][1] != ty for s, ty in zip(state, styp)) or env2[i] != (f'({nvar} + 1)', 'nat'):
+        raise Unsupported('loop state changes type')
+    res = ' × '.join(lean_ty(t) for t in styp)
+    text = (f'@[gen_defs] def {aux}{capb} : Nat → ' + ' → '.join(lean_ty(t) for t in styp) + f' → {res}\n'
+            + f'  | 0, {pat} => {tup}\n'
+            + f'  | {nvar} + 1, {pat} =>\n    ' + '\n    '.join(lines2)
+            + f'\n    {self.ns}.{aux}{capa} {nvar} ' + ' '.join(env2[s][0] for s in state))
+    return text, aux, capa
+
+
+Gen.emit_loop_down, Gen.loop_down_text = _emit_loop_down4, _loop_down_text4
+
 
 def impl_blocks(src, self_ty):
     """the bodies of all inherent impl blocks `impl[<..>] Ty[<..>] {` of a file, concatenated"""
@@ -3593,6 +3664,10 @@ FILES = [
              use=['div_limb_loops', 'reciprocal'],
              desc='impl<const LIMBS: usize> Uint<LIMBS>: the thin wrappers div_rem_limb[_with_reciprocal], rem_limb[_with_reciprocal]',
              want=['div_rem_limb_with_reciprocal', 'div_rem_limb', 'rem_limb_with_reciprocal', 'rem_limb']),
+        dict(key='uint_limb_vartime', rel=['src/uint/div.rs'], ns='CB.Gen.DivLimbLoops.Vartime', self_ty='Uint', generic='LIMBS',
+             private=True, usize_param_nat=True,
+             desc='impl<const LIMBS: usize> Uint<LIMBS>: the private sub-limb shifts of div_rem_vartime over the low `limbs_num` limbs',
+             want=['shl_limb_vartime', 'shr_limb_vartime']),
         dict(key='mul_rem', rel=DIV_LIMB, ns='CB.Gen.DivLimbLoops.MulRem', self_ty=None, private=True,
              use=['div_limb_loops', 'reciprocal', 'prim'],
              desc='mul_rem: the double-width product reduced by rem_limb_with_reciprocal at limb count 2', want=['mul_rem']),
@@ -3697,6 +3772,7 @@ def main():
                 if u.get(opt):
                     ext[opt] = u[opt]
             OPTS.update({k: u[k] for k in ('usize_nat',) if u.get(k)})
+            OPTS.update({k: u[k] for k in ('usize_param_nat',) if u.get(k)})
             try:
                 order, out, failed, sigs = translate_file(path, ns, self_ty, u.get('want'), u.get('private', False), ext, u.get('cut'))
             except (Unsupported, OSError) as ex:
